@@ -34,6 +34,9 @@ pub enum Src {
   CountingIter(usize),
   /// `from_stream` over a stream of n ready items that counts its polls
   CountingStream(usize),
+  /// `from_stream` over a stream that is never ready (a channel whose sender is alive but silent): every poll is
+  /// counted and answers Pending, nothing ever wakes the task
+  SilentStream,
 }
 
 #[derive(Clone, Copy, Debug, PartialEq, Eq, Hash)]
